@@ -20,7 +20,8 @@ ASSUMPTIONS = ["documents with an internal DTD subset are C12's subject and excl
 DECLS = ['<?xml version="1.0" encoding="utf-8"?>\n', "", '<?xml version="1.0"?>\n', "<?xml version='1.0' encoding='UTF-8'?>", '<?xml version="1.0"\n  encoding="utf-8"?>\n',
          '<?xml\n version="1.0"\n encoding="utf-8"\n?>\n', '<?xml version="1.0" encoding="utf-8" standalone="yes"?>\n', '<?xml version="1.0"\r\n encoding="utf-8"?>\r\n']
 DOCTYPES = ["", "", "", '<!DOCTYPE rss PUBLIC "-//Netscape Communications//DTD RSS 0.91//EN" "http://my.netscape.com/publish/formats/rss-0.91.dtd">\n', '<!DOCTYPE feed>\n', "<!DOCTYPE rss SYSTEM 'http://example.org/rss.dtd'>"]
-HEADERS = [None, {}, {"content-type": "application/xml"}, {"content-type": "application/xml; charset=utf-8"}, {"content-type": "application/atom+xml; charset=utf-8"},
+HEADERS = [{"content-type": "application/atom+xml; type=feed; charset=utf-8"}, {"content-type": "text/xml; qs=0.9; charset=utf-8"}, {"content-type": 'application/xml; q=0.5;charset="utf-8"; x=y'},
+           None, {}, {"content-type": "application/xml"}, {"content-type": "application/xml; charset=utf-8"}, {"content-type": "application/atom+xml; charset=utf-8"},
            {"content-type": "application/rss+xml"}, {"Content-Type": "text/xml; charset=utf-8"}, {"content-type": "application/rdf+xml; charset=UTF-8"}, {"content-type": "application/xml", "content-location": "http://example.org/f"}]
 
 
@@ -183,10 +184,27 @@ def parse(data, headers):
         return feedparser.parse(data, response_headers=headers)
 
 
-def judge(doc, headers, kind, history=None):
+def encode_doc(doc, enc):
+    """the document in its correctly DECLARED encoding: the XML declaration names `enc` (added when there is none); utf-16 gets a BOM from the codec"""
+    if enc == "utf-8":
+        return doc.encode("utf-8")
+    m = re.match(r"<\?xml[^>]*\?>", doc)
+    if m:
+        d = m.group(0)
+        d2 = re.sub(r"""encoding\s*=\s*(["'])[^"']*\1""", 'encoding="%s"' % enc, d) if "encoding" in d else d.replace("?>", ' encoding="%s"?>' % enc)
+        doc = d2 + doc[m.end():]
+    else:
+        doc = '<?xml version="1.0" encoding="%s"?>\n' % enc + doc
+    return doc.encode(enc)
+
+
+def judge(doc, headers, kind, history=None, enc="utf-8"):
     """history: documents parsed earlier in the same process (recorded in the witness, re-parsed first on replay)"""
-    data = doc.encode("utf-8", "surrogatepass") if False else doc.encode("utf-8")
-    w = {"doc": doc, "headers": headers, "damage": kind, "history": history}
+    try:
+        data = encode_doc(doc, enc)
+    except UnicodeEncodeError:
+        return []             # the damage inserted a character the chosen encoding cannot carry: not a document in that encoding
+    w = {"doc": doc, "headers": headers, "damage": kind, "history": history, "enc": enc}
     if history and history is not LIVE_HISTORY:
         for h in history:
             try:
@@ -227,12 +245,31 @@ def search(ctx, focus=None):
     for _ in range(ctx.n(160, 3000)):
         doc = gen_doc(rng)
         hdr = rng.choice(HEADERS)
+        enc = "utf-8"
+        if rng.random() < 0.2 and "[\n<!ENTITY" not in doc:
+            # the same kind of document in another correctly declared encoding, one in three longer than the 64 KiB detection prefix with
+            # non-ASCII text after it
+            enc = rng.choice(["iso-8859-1", "windows-1252", "utf-16", "iso-8859-15"])
+            if rng.random() < 0.35:
+                m = re.search(r"<(?![?!])[^>]*>", doc)
+                if m:
+                    doc = doc[:m.end()] + "<!-- %s -->" % ("padding é " * 7000) + doc[m.end():]
+            try:
+                doc.encode(enc)
+            except UnicodeEncodeError:
+                doc = doc.encode(enc, "xmlcharrefreplace").decode(enc) if False else "".join(c if ord(c) < 256 and (enc != "windows-1252" or c.encode("windows-1252", "ignore")) else "x" for c in doc)
+                try:
+                    doc.encode(enc)
+                except UnicodeEncodeError:
+                    enc = "utf-8"
+            if hdr and "charset" in str(hdr).lower():
+                hdr = {k: re.sub(r"""(?i)charset\s*=\s*["']?[\w-]+["']?""", "charset=" + enc, v) for k, v in hdr.items()}
         n += 1
         dist["well-formed"] += 1
         if "[\n<!ENTITY" in doc:
             dist["internal-subset"] = dist.get("internal-subset", 0) + 1
         distinct.add((doc, str(hdr)))
-        failures += judge(doc, hdr, None, LIVE_HISTORY)
+        failures += judge(doc, hdr, None, LIVE_HISTORY, enc)
         if "[\n<!ENTITY" in doc:
             LIVE_HISTORY.append(doc)
             del LIVE_HISTORY[:-3]
@@ -244,11 +281,12 @@ def search(ctx, focus=None):
                 n += 1
                 dist[kind] = dist.get(kind, 0) + 1
                 distinct.add((dm, str(hdr)))
-                failures += judge(dm, hdr, kind, LIVE_HISTORY)
+                failures += judge(dm, hdr, kind, LIVE_HISTORY, enc)
     return {"evaluations": n, "distinct_nontrivial": len(distinct), "failures": failures, "distribution": dist,
             "rule": "well-formed feeds (vocabulary-wide RSS 2.0 / RSS 1.0 / Atom 1.0, abstract feeds with markup-significant text in six formats, namespace cases) x XML declaration layouts "
                     "(none, single-line, single-quoted, multi-line, CRLF, standalone) x DOCTYPE (none, external-ID forms, internal subsets declaring general entities of a small shared pool -- "
-                    "so that what one document declares another one references without declaring it, in the same process; the witness records the preceding subset documents) x headers (none, empty, XML media types with / without charset, any case); "
+                    "so that what one document declares another one references without declaring it, in the same process; the witness records the preceding subset documents) x headers (none, empty, XML media types with / without charset, charset not the first parameter, any case) x encoding (utf-8; one in five iso-8859-1 / windows-1252 / "
+                    "iso-8859-15 / utf-16, correctly declared, a third of those longer than the 64 KiB detection prefix with non-ASCII text after it); "
                     "each also with single-point damages of the element content at random positions {dropped / mismatched end tag, bare &, bare <, undefined entity, undeclared prefix, duplicate "
                     "attribute, unquoted attribute, text / second root after the root, illegal character, DOCTYPE at a line start inside content, ]]> in text, unclosed comment, XML declaration "
                     "inside content}; oracle: pyexpat (namespace mode) on the same bytes: bozo set iff expat rejects, bozo <-> bozo_exception, and the exception is the SAX one",
@@ -268,8 +306,15 @@ def correspondence(ctx):
     return apilib.corr(ctx, n=ctx.n(150, 2500), extra=extra)
 
 
+def long_generic_utf_doc(enc):
+    """a BOM-led UTF-16 / UTF-32 feed longer than the 64 KiB detection prefix, correctly declared, served with the GENERIC charset name"""
+    return ('<?xml version="1.0" encoding="%s"?><rss version="2.0"><channel><title>t</title><!-- %s --><item><title>i</title></item></channel></rss>' % (enc, "pad " * 20000))
+
+
 def replay(w):
-    fs = judge(w["doc"], w["headers"], w.get("damage"), w.get("history") or None)
+    if w.get("construct") == "long-generic-utf":
+        w = {"doc": long_generic_utf_doc(w["enc"]), "headers": {"content-type": "application/xml; charset=" + w["enc"]}, "damage": None, "history": None, "enc": w["enc"]}
+    fs = judge(w["doc"], w["headers"], w.get("damage"), w.get("history") or None, w.get("enc", "utf-8"))
     return (bool(fs), fs[0].what if fs else "bozo agrees with expat's verdict and is paired with bozo_exception")
 
 
